@@ -8,6 +8,10 @@ ids = [p["id"] for p in props]
 
 # id -> (engine, technique, level text, level note, design ref)
 CHECKS = {
+ "C17": ("E5", "bounded-exhaustive full product of base policies x endorsements x configurations x flags on the real SevPolicy/TdxPolicy, against a reference derivation and a deep snapshot of the base",
+         "49 endorsements (measurement tables, CA bundles of 0-3 PEM blocks, wrong PEM type, trailing garbage, SVN values, no SEV section) x 73 base policies (nil and every combination of guest policy / measurement / minimum SVN / trusted keys set equal, different or unset, with six unrelated fields set) x VMSA counts {0,1,2,9} x overwrite x allow-unspecified (57k derivations), and for TDX 5 base policies x 3 row sets x RAM {0,16,64} x overwrite: the base must be bit-identical to its snapshot and not aliased, set values survive without overwrite or the call fails, placed values are the endorsement's, trusted keys are base + bundle in order, unrelated fields are untouched.",
+         "Trusted: protobuf Equal/Clone; values outside the enumerated menus behave alike (comparisons are equality / ordering on scalars).",
+         "DESIGN.md#c17"),
  "C08": ("E5", "bounded-exhaustive field-level deviation enumeration over valid firmware images (every 16/32/64-bit value menu at every offset of the GUID table, SEV metadata and TDVF metadata; truncations; all tiny images; thorough: pairs) on every analysis entry point, in journaling worker processes with allocation accounting and a per-case horizon",
          "About 44k (thorough: ~1M) deviated images x 9 entry points (LaunchDigest for both products, UnsignedSnp, SevData.ExtractFromFirmware, MRTD in three modes, UnsignedTDX, the three ExtractMaterialGuestPhysicalRegions variants): menus of boundary and overflow-triggering values (2^32/12, 2^32/32, 2^63, 2^64-1, len+-1, remaining, ...) at every byte offset of the three metadata structures of a 12 KiB and a 4 KiB image, truncations, all images <=12 bytes over {00,ff}; a panic, worker death, 8 s horizon (3x confirmation at 5x) or allocation above 256 MiB + 64 x image length is a violation.",
          "Trusted: horizon and allocation constants (legitimate cost < 20 ms / < 150 MiB with the 16 MiB cap on generated sections); single-site deviations in quick, pairs only inside the TDVF metadata in thorough; images above 12 KiB are not deviated.",
